@@ -414,18 +414,34 @@ def run(ctx):
                 ctx.ob(R4, "tuple-result-only-for-tuples" + tag, on_tuple, "Tuple is built under is_tuple()", f.where(c.bb))
         # ---- S5 -----------------------------------------------------------------------------------------------
         sliceable = text_reg | bytes_reg | regs.get("Undefined", set()) | regs.get("None", set())
+        # inside the object arm: the side on which the object is a sequence / iterable (the other side falls through to
+        # "cannot be sliced")
+        OREPR = "minijinja::value::object::ObjectRepr"
+        for sb in sorted(obj_reg):
+            if f.term(sb)["k"] != "switch":
+                continue
+            mv = flow.matches_variants(prog, f, sb, OREPR) if OREPR in prog.adts else None
+            cd = flow.cond_of(f, sb)
+            if mv is not None and {"Seq", "Iterable"} & set(mv):
+                for (_, x) in cfg.bool_edges(f, sb, not cd.neg):
+                    sliceable = sliceable | cfg.region_dominated_by(f, x)
+                break
+            if cd.kind == "discr" and cd.adt == OREPR:
+                tg = arms.variant_targets(prog, f, sb, OREPR)
+                for v in ("Seq", "Iterable"):
+                    if v in tg and tg[v] != tg.get("Map") and tg[v] != tg.get("Plain"):
+                        sliceable = sliceable | cfg.region_dominated_by(f, tg[v])
         nerr = 0
         for c in f.calls():
             if c.name == ERR_NEW:
                 nerr += 1
-                in_zero = c.bb in zreg
-                before = rsb not in cfg.reach_from(f, 0, avoid={c.bb}) or not cfg.can_reach(f, rsb, c.bb)
-                ctx.ob(R5, "error-%d%s" % (nerr, tag), (in_zero or before) and c.bb not in sliceable and c.bb not in obj_reg,
-                       "an error of slice is built for a zero step or (ahead of the match) for an operand that cannot be sliced", f.where(c.bb))
+                ctx.ob(R5, "error-%d%s" % (nerr, tag), c.bb not in sliceable,
+                       "an error of slice is built for a zero step or for an operand that cannot be sliced, never inside the arm "
+                       "of a kind that can", f.where(c.bb))
         for bb, i, s in f.all_stmts():
             rv = s.get("rv")
             if s["k"] == "assign" and rv and rv["k"] == "agg" and rv.get("variant") == "Err" and rv.get("adt") == "core::result::Result":
-                ctx.ob(R5, "err-built-in-arm-%s%s" % (arm_of(regs, bb), tag), bb not in sliceable and bb not in obj_reg,
+                ctx.ob(R5, "err-built-in-arm-%s%s" % (arm_of(regs, bb), tag), bb not in sliceable,
                        "no arm of a sliceable kind builds an error", f.where(bb))
         for g in sc.fns:
             for c in g.calls():
